@@ -34,8 +34,8 @@ CLAIMS = {
   note="trusted: go/ssa front end, SMT solvers, machine arithmetic as specified by Go; strings are an uninterpreted model (Index/Slice/Len compared through the same indexing function). Not covered: container methods through reflection (cti_method.go), method resolution in the compiler, signatures in go/types/cti_method.go",
   ref="DESIGN.md section 0.1, section 5 C34"),
  "C37": dict(
-  text="binarySearch, prefixSearch, removeCmd, Cmds.Lookup/Add/Del are verified against requires/ensures/loop-invariant contracts for all inputs (unbounded slices, arbitrary strings): unique prefix / exact name / ambiguity / no match exactly as stated, termination, no out-of-range access, frame conditions",
-  note="trusted: string order/prefix axioms, assumed contract of sortCmdList (sort.Slice), errors.New, strings.Join, go/ssa front end, SMT solvers; Interp.Cmd fall-through and the text of the ambiguity message are not under contract",
+  text="binarySearch, prefixSearch, removeCmd, Cmds.Lookup/Add/Del are verified against requires/ensures/loop-invariant contracts for all inputs (unbounded slices, arbitrary strings): unique prefix / exact name / ambiguity / no match exactly as stated, termination, no out-of-range access, frame conditions; Interp.Cmd is proved to leave nothing to evaluate after an ambiguous prefix and to hand an unknown ':'-prefixed input back for (forced) evaluation",
+  note="trusted: string order/prefix axioms, assumed contract of sortCmdList (sort.Slice), errors.New, strings.Join, go/ssa front end, SMT solvers; strings.TrimSpace / Split2 as pure functions; the text of the ambiguity message and the exact text handed back for evaluation are not under contract",
   ref="DESIGN.md section 5 C37"),
 }
 
